@@ -41,6 +41,7 @@ type Profile struct {
 	NegMapProbe  bool   // templates may reference a symbol mapped only before the last move (C05)
 	RelWeight    int    // weight of relative targets against 6 for named ones (default 3)
 	EndWeight    int    // weight of each kind of end node against 6 for menu nodes (default 1)
+	Unicode      bool   // multi-byte UTF-8 in labels, translations, static template text and padded values
 	StaticSyms   bool   // some external symbols are static-load symbols with per-language entries
 	InputWeight  int    // weight of input-consuming nodes (HALT .. MOVE) against 6 for menu nodes (default 2)
 }
@@ -198,14 +199,20 @@ func Generate(t *tape.Tape, p Profile) *App {
 	newLabel := func() string {
 		l := fmt.Sprintf("l%c%c", 'a'+byte(labelN/26), 'a'+byte(labelN%26))
 		labelN++
+		if p.Unicode && !p.Translations && t.Chance(1, 2) {
+			a.Labels[l] = map[string]string{"": l + " øé→"}
+		}
 		if p.Translations {
 			m := map[string]string{}
 			if t.Chance(2, 3) {
 				m[""] = "lbl " + l
+				if p.Unicode && t.Chance(1, 2) {
+					m[""] = "lbl " + l + " ø→"
+				}
 			}
 			for _, lg := range a.Langs {
 				if t.Chance(1, 2) {
-					m[lg] = lg + " " + l + padTo("", t.Int(14))
+					m[lg] = lg + " " + l + padToU("", t.Int(14), p.Unicode && t.Chance(1, 2))
 				}
 			}
 			if len(m) > 0 {
@@ -600,6 +607,9 @@ func genSelector(t *tape.Tape, j int) string {
 
 func genBehav(t *tape.Tape, p Profile, e *ExtSym) ExtBehav {
 	b := ExtBehav{Len: -1}
+	if p.Unicode && t.Chance(1, 2) {
+		b.Uni = true
+	}
 	if p.ExtErrPct > 0 && t.Chance(p.ExtErrPct, 100) {
 		b.Err = true
 		b.Status = t.Int(3)
@@ -696,6 +706,9 @@ func makeTpl(t *tape.Tape, p Profile, name, lg string, mapped []string, sink str
 	}
 	s += "|"
 	words := []string{"hello", "pick one", "a", "welcome to the show", "ok"}
+	if p.Unicode {
+		words = []string{"hello", "velg én", "å", "Områder: Røros → Ålesund", "ok ✓"}
+	}
 	if t.Chance(2, 3) {
 		s += words[t.Int(len(words))]
 		if p.MultiRowTpl && t.Chance(1, 3) {
